@@ -272,13 +272,10 @@ Proof.
   - discriminate.
 Qed.
 
-Section Json.
+Section JsonDetect.
   Variable tail : envelope -> bytes.
-  Variable unmarshal : bytes -> option envelope.
-  (* the JSON library's guarantees the theorems rely on *)
-  Variable json_safe : envelope -> Prop.
+  (* the one guarantee about encoding/json the detection theorem relies on *)
   Hypothesis tail_second : forall e, exists r, tail e = enc_second ++ r.
-  Hypothesis json_roundtrip : forall e, json_safe e -> unmarshal (marshal tail e) = Some e.
 
   Lemma marshal_shape e : exists r, marshal tail e = 123 :: marker ++ r /\ 15 <= zlen (marshal tail e).
   Proof.
@@ -307,6 +304,14 @@ Section Json.
     - rewrite <- go_js_agree_long; [assumption|]. destruct (marshal_shape e) as (_ & _ & H). exact H.
   Qed.
 
+End JsonDetect.
+
+Section JsonRoundtrip.
+  Variable tail : envelope -> bytes.
+  Variable unmarshal : bytes -> option envelope.
+  Variable json_safe : envelope -> Prop.
+  Hypothesis json_roundtrip : forall e, json_safe e -> unmarshal (marshal tail e) = Some e.
+
   Lemma encode_decode e b : json_safe e -> encode tail e = Some b ->
     decode unmarshal b = Some e /\ py_decode unmarshal b = Some e /\ js_decode_env unmarshal b = Some e.
   Proof.
@@ -314,11 +319,11 @@ Section Json.
     destruct (required_missing e) eqn:E; [discriminate|]. intros [= <-].
     rewrite (json_roundtrip e Hs). rewrite E. unfold required_missing in E. rewrite E. auto.
   Qed.
+End JsonRoundtrip.
 
-  (* nothing but a produced envelope's own fields come back: decode never invents *)
-  Lemma encode_some_iff e : (exists b, encode tail e = Some b) <-> required_missing e = false.
-  Proof.
-    unfold encode. destruct (required_missing e); split; intros H; try discriminate; eauto.
-    destruct H as [b H]. discriminate.
-  Qed.
-End Json.
+(* EncodeEnvelope accepts exactly the envelopes with the four required fields *)
+Lemma encode_some_iff tail e : (exists b, encode tail e = Some b) <-> required_missing e = false.
+Proof.
+  unfold encode. destruct (required_missing e); split; intros H; try discriminate; eauto.
+  destruct H as [b H]. discriminate.
+Qed.
